@@ -10,10 +10,13 @@
     traces.  Hypotheses on the configuration ([env_ok]): the staging root is the default one or a
     user-chosen directory unrelated to the storage root, disjoint from all object roots
     ([cfg_ok], [stg_separate]); objects lie strictly inside the storage root, are not nested and
-    their version directories are named v<digits>.  [create_dir_all] of a not yet existing
+    their version directories are named v<digits>.  The named sources of an external mv are
+    modelled twice: [o_srcs] as the calls spell them and [o_csrcs] as fs::canonicalize resolves
+    them (the refusal of sources inside the repository decides on the latter); the theorem about
+    objects assumes they coincide (no symbolic link in a named source).  [create_dir_all] of a not yet existing
     staging root also creates its missing ancestors: the zone [in_zone] says so explicitly
     (Mkdir of an ancestor of the staging / storage root). *)
-From Rocfl Require Import Base.Bytes Model.FsOps Generated.Consts Model.Footprint Model.KnownC12
+From Rocfl Require Import Base.Bytes Model.FsOps Generated.Consts Model.Footprint
   Model.Layout Model.KnownC11
   Proofs.FootprintFacts Proofs.FootprintPaths Proofs.FootprintGuard Proofs.FootprintCommitted Proofs.FootprintGen
   Proofs.FootprintLayout Proofs.FootprintMain.
@@ -60,8 +63,10 @@ Theorem C12_main_root_within : forall s R rel,
 Proof. exact main_root_within_lemma. Qed.
 Print Assumptions C12_main_root_within.
 
+(** (0003 configured WITHOUT tuples is left out since fix e1de1bb of /repo: its root is the
+    percent-encoded id alone, e.g. `extensions`; such roots are refused by the guard above) *)
 Theorem C12_hashed_layouts_safe : forall (c : Layout.cfg) id dg p,
-  (c_ext c = E0003 \/ c_ext c = E0004) ->
+  (c_ext c = E0003 /\ c_ts c <> 0%N \/ c_ext c = E0004) ->
   Layout.cfg_ok c = true -> inputs_ok c id dg = true -> known_c11 c id = false ->
   Layout.map c id dg = Ok p ->
   rel_safe p = true /\ first_is_extensions p = false /\ forall R, below R (main_root R p) = true.
@@ -105,7 +110,7 @@ Print Assumptions C12_refused_commit_changes_nothing.
 (** no operation other than purge touches anything inside an object of the main repository
     except root inventory, sidecar, declaration and the version directory that does not exist *)
 Theorem C12_ops_stay_out_of_other_objects : forall c s o f m p,
-  env_ok c s -> hex_ok (o_hex o) = true -> c12_mv_source_in_repo c o = false ->
+  env_ok c s -> hex_ok (o_hex o) = true -> (o_kind o = KMvExt -> o_csrcs o = o_srcs o) ->
   o_kind o <> KPurge -> (o_kind o = KInit -> p_objs s = []) ->
   allowed c s o f = true -> In m (p_objs s) -> In p (targets f) -> touch_ok o m p.
 Proof. exact allowed_respects_objects. Qed.
@@ -129,12 +134,17 @@ Theorem C12_model_trace_within : forall c s o g k,
 Proof. exact gen_in_zone. Qed.
 Print Assumptions C12_model_trace_within.
 
-(** ** the excluded class is a genuine defect (known finding) *)
-Theorem C12_known_mv_source_refuted :
-  c12_mv_source_in_repo ex_c ex_mv = true /\ allowed ex_c ex_s ex_mv ex_mv_call = true /\
-  in_committed ex_s ex_src = true /\ In ex_src (targets ex_mv_call).
-Proof. exact known_mv_source_witness. Qed.
-Print Assumptions C12_known_mv_source_refuted.
+(** ** an external mv whose named source is part of the repository is refused (fix 128b230):
+    the rename of a committed content file is outside the footprint, the lock is not even taken;
+    a source outside the repository is moved as before *)
+Theorem C12_mv_source_in_repo_refused :
+  mv_refused ex_c ex_mv = true /\ in_committed ex_s ex_src = true /\
+  allowed ex_c ex_s ex_mv ex_mv_call = false /\
+  allowed ex_c ex_s ex_mv (CreateNew (lockf ex_c ex_mv)) = false /\
+  allowed ex_c ex_s ex_mv_outside
+    (Rename [b "home"; b "u"; b "m.txt"] (S_o ex_c ex_mv ++ [b "v2"; b "content"; b "m.txt"])) = true.
+Proof. exact mv_source_in_repo_refused. Qed.
+Print Assumptions C12_mv_source_in_repo_refused.
 
 (** ** non-vacuity *)
 Example C12_nonvacuous_env : env_ok ex_c ex_s.
@@ -142,7 +152,7 @@ Proof. exact ex_env_ok. Qed.
 
 Example C12_nonvacuous_gen :
   gin_ok ex_c ex_s ex_commit ex_gin = true /\ gin_ok ex_c ex_s ex_new ex_gin_new = true
-  /\ c12_mv_source_in_repo ex_c ex_commit = false
+  /\ op_runs ex_c ex_commit = true
   /\ List.length (gen ex_c ex_commit ex_gin) = 35%nat /\ List.length (gen ex_c ex_new ex_gin_new) = 28%nat.
 Proof. exact ex_gin_ok. Qed.
 
